@@ -266,7 +266,23 @@ theorem ReadOnly.spec {α} {R E} (g : Good R E) {m : DM α} (h : ReadOnly m) : S
 
 theorem fsExists_readOnly (p : Bytes) : ReadOnly (fsExists p) := fun _ => ⟨_, rfl⟩
 theorem fsIsRegular_readOnly (p : Bytes) : ReadOnly (fsIsRegular p) := fun _ => ⟨_, rfl⟩
+theorem fsIsSymlink_readOnly (p : Bytes) : ReadOnly (fsIsSymlink p) := fun _ => ⟨_, rfl⟩
 theorem fsGetPerms_readOnly (p : Bytes) : ReadOnly (fsGetPerms p) := fun _ => ⟨_, rfl⟩
+
+/-- `ReadOnly` of a block made of the `fs…` queries, `pure`, `if` and (local) functions already known to be read-only -/
+syntax "readonly_walk" : tactic
+macro_rules | `(tactic| readonly_walk) => `(tactic| first
+  | (with_reducible first
+      | exact ReadOnly.pure _
+      | exact ReadOnly.get
+      | exact fsExists_readOnly _
+      | exact fsIsRegular_readOnly _
+      | exact fsIsSymlink_readOnly _
+      | exact fsGetPerms_readOnly _
+      | assumption
+      | apply_assumption -exfalso -symm only [*])
+  | ((with_reducible refine ReadOnly.bind ?_ (fun _ => ?_)) <;> readonly_walk)
+  | ((with_reducible refine ReadOnly.ite ?_ ?_) <;> readonly_walk))
 
 theorem run_fsExists (p : Bytes) (s : DState) :
     (fsExists p).run s = (.ok (s.fs.stat (absPath s p)).isSome, s) := rfl
@@ -496,8 +512,13 @@ theorem Spec.cut1 (jp : β → DM α) {m : DM γ} (h1 : ∀ x, Spec R E (jp x))
     (h2 : (∀ x, Spec R E (jp x)) → Spec R E m) : Spec R E m := h2 h1
 theorem Spec.cut2 {β' : Type} (jp : β → β' → DM α) {m : DM γ} (h1 : ∀ x y, Spec R E (jp x y))
     (h2 : (∀ x y, Spec R E (jp x y)) → Spec R E m) : Spec R E m := h2 h1
+/-- a local function of a `do` block that only asks the file system (`notRegular` of `processSection`): it is kept as a
+    read-only program, which can be called anywhere in the block, whatever the specification being proved -/
+theorem Spec.cutRO (jp : β → DM α) {m : DM γ} (h1 : ∀ x, ReadOnly (jp x))
+    (h2 : (∀ x, ReadOnly (jp x)) → Spec R E m) : Spec R E m := h2 h1
 theorem Spec.fsExists (g : Good R E) (p : Bytes) : Spec R E (fsExists p) := (fsExists_readOnly p).spec g
 theorem Spec.fsIsRegular (g : Good R E) (p : Bytes) : Spec R E (fsIsRegular p) := (fsIsRegular_readOnly p).spec g
+theorem Spec.fsIsSymlink (g : Good R E) (p : Bytes) : Spec R E (fsIsSymlink p) := (fsIsSymlink_readOnly p).spec g
 theorem Spec.fsGetPerms (g : Good R E) (p : Bytes) : Spec R E (fsGetPerms p) := (fsGetPerms_readOnly p).spec g
 end
 
@@ -513,6 +534,8 @@ macro_rules | `(tactic| spec_leaf $g) => `(tactic| with_reducible first
   | apply_assumption -exfalso -symm only [*]
   | exact Spec.fsExists $g _
   | exact Spec.fsIsRegular $g _
+  | exact Spec.fsIsSymlink $g _
+  | (refine ReadOnly.spec $g ?_; readonly_walk; done)
   | exact Spec.fsGetPerms $g _)
 
 syntax "spec_step " term:max : tactic
@@ -520,6 +543,9 @@ macro_rules | `(tactic| spec_step $g) => `(tactic| (
   first
   | (extract_lets -underBinder +onlyGivenNames jp
      first
+     | (refine Spec.cutRO jp (fun x => ?_) (fun hjp => ?_)
+        rotate_left; focus (clear_value jp)
+        rotate_right; focus (dsimp -zeta only [jp]; readonly_walk; done))
      | (refine Spec.cut2 jp (fun x y => ?_) (fun hjp => ?_)
         rotate_left; focus (clear_value jp)
         rotate_right; focus (dsimp -zeta only [jp]))
@@ -1085,6 +1111,8 @@ macro_rules | `(tactic| tame_leaf) => `(tactic| with_reducible first
   | exact fixPermissionsIfNeeded_trExt _ _
   | exact Spec.fsExists (good_ext Tame) _
   | exact Spec.fsIsRegular (good_ext Tame) _
+  | exact Spec.fsIsSymlink (good_ext Tame) _
+  | (refine trExt_of_readOnly ?_; readonly_walk; done)
   | exact Spec.fsGetPerms (good_ext Tame) _
   | exact guessFilepath_trExt _ _
   | exact promptForFilepath_trExt _
@@ -1098,8 +1126,12 @@ syntax "atomic_walk" : tactic
 macro_rules | `(tactic| atomic_step) => `(tactic| (
   first
   | (with_reducible first | exact Atomic.pure _ | exact Atomic.throw _ | assumption | apply_assumption -exfalso -symm only [*])
+  | (refine Atomic.of_trExt (trExt_of_readOnly ?_); readonly_walk; done)
   | (extract_lets -underBinder +onlyGivenNames jp
      first
+     | (refine Spec.cutRO jp (fun x => ?_) (fun hjp => ?_)
+        rotate_left; focus (clear_value jp)
+        rotate_right; focus (dsimp -zeta only [jp]; readonly_walk; done))
      | (refine Spec.cut2 jp (fun x y => ?_) (fun hjp => ?_)
         rotate_left; focus (clear_value jp)
         rotate_right; focus (dsimp -zeta only [jp]))
@@ -1200,6 +1232,8 @@ macro_rules | `(tactic| neutral_leaf) => `(tactic| with_reducible first
   | exact parseBodyM_neutral _ _
   | exact Spec.fsExists good_neutral _
   | exact Spec.fsIsRegular good_neutral _
+  | exact Spec.fsIsSymlink good_neutral _
+  | (refine ReadOnly.spec good_neutral ?_; readonly_walk; done)
   | exact Spec.fsGetPerms good_neutral _)
 
 syntax "stable_leaf" : tactic
@@ -1233,6 +1267,9 @@ macro_rules | `(tactic| honest_step) => `(tactic| (
   first
   | (extract_lets -underBinder +onlyGivenNames jp
      first
+     | (refine Spec.cutRO jp (fun x => ?_) (fun hjp => ?_)
+        rotate_left; focus (clear_value jp)
+        rotate_right; focus (dsimp -zeta only [jp]; readonly_walk; done))
      | (refine Spec.cut2 jp (fun x y => ?_) (fun hjp => ?_)
         rotate_left; focus (clear_value jp)
         rotate_right; focus (dsimp -zeta only [jp]))
@@ -1779,6 +1816,8 @@ macro_rules | `(tactic| nochmod_leaf) => `(tactic| with_reducible first
   | exact fixPermissionsIfNeeded_trExt _ _
   | exact Spec.fsExists (good_ext NoChmod) _
   | exact Spec.fsIsRegular (good_ext NoChmod) _
+  | exact Spec.fsIsSymlink (good_ext NoChmod) _
+  | (refine trExt_of_readOnly ?_; readonly_walk; done)
   | exact Spec.fsGetPerms (good_ext NoChmod) _
   | exact guessFilepath_trExt _ _
   | exact promptForFilepath_trExt _
@@ -1808,6 +1847,9 @@ macro_rules | `(tactic| late_step) => `(tactic| (
   first
   | (extract_lets -underBinder +onlyGivenNames jp
      first
+     | (refine Spec.cutRO jp (fun x => ?_) (fun hjp => ?_)
+        rotate_left; focus (clear_value jp)
+        rotate_right; focus (dsimp -zeta only [jp]; readonly_walk; done))
      | (refine Spec.cut2 jp (fun x y => ?_) (fun hjp => ?_)
         rotate_left; focus (clear_value jp)
         rotate_right; focus (dsimp -zeta only [jp]))
